@@ -41,6 +41,11 @@ _R = {             # the real functions
     "signal.signal": _signal.signal, "signal.getsignal": _signal.getsignal, "signal.set_wakeup_fd": _signal.set_wakeup_fd,
     "time.time": _time.time, "time.monotonic": _time.monotonic, "time.sleep": _time.sleep,
     "locale.getpreferredencoding": _locale.getpreferredencoding,
+    "os.isatty": _os.isatty, "os.get_terminal_size": _os.get_terminal_size, "fcntl.ioctl": _fcntl.ioctl,
+    "termios.tcflush": _termios.tcflush, "termios.tcdrain": _termios.tcdrain, "termios.tcflow": _termios.tcflow,
+    "termios.tcsendbreak": _termios.tcsendbreak,
+    "time.perf_counter": _time.perf_counter, "time.time_ns": _time.time_ns, "time.monotonic_ns": _time.monotonic_ns,
+    "select.poll": getattr(_select, "poll", None), "select.epoll": getattr(_select, "epoll", None),
 }
 
 
@@ -163,6 +168,93 @@ def _getpreferredencoding(do_setlocale=True):
     return _R["locale.getpreferredencoding"](do_setlocale)
 
 
+def _os_isatty(fd):
+    if _K is not None and fd in _K.fds:
+        return _K.isatty(fd)
+    return _R["os.isatty"](fd)
+
+
+def _os_get_terminal_size(fd=1):
+    if _K is not None and fd in _K.fds:
+        t = _W.term
+        return _os.terminal_size((t.w, t.h))
+    return _R["os.get_terminal_size"](fd)
+
+
+def _fcntl_ioctl(fd, request, arg=0, mutate_flag=True):
+    if _K is not None and _fdof(fd) in _K.fds:
+        import struct
+        if request == _termios.TIOCGWINSZ:
+            t = _W.term
+            data = struct.pack("HHHH", t.h, t.w, 0, 0)
+            if isinstance(arg, (bytearray,)) and mutate_flag:
+                arg[:len(data)] = data
+                return 0
+            return data
+        if request == getattr(_termios, "FIONREAD", -1):
+            o = _K.fds[_fdof(fd)]
+            n = len(o.inq) if o.kind == "tty" else len(o.pipe.buf)
+            data = struct.pack("i", n)
+            if isinstance(arg, bytearray) and mutate_flag:
+                arg[:len(data)] = data
+                return 0
+            return data
+        from .world import HarnessError
+        raise HarnessError("ioctl request %r on a simulated descriptor is not modelled" % (request,))
+    return _R["fcntl.ioctl"](fd, request, arg, mutate_flag)
+
+
+def _tcflush(fd, queue):
+    if _K is not None and _fdof(fd) in _K.fds:
+        return _K.tcflush(fd, queue)
+    return _R["termios.tcflush"](fd, queue)
+
+
+def _tc_noop(name):
+    def f(fd, *a):
+        if _K is not None and _fdof(fd) in _K.fds:
+            _K._tty_of(fd)
+            return None
+        return _R[name](fd, *a)
+    return f
+
+
+def _time_ns():
+    if _W is not None:
+        return int(_W.time() * 1e9)
+    return _R["time.time_ns"]()
+
+
+def _monotonic_ns():
+    if _W is not None:
+        return int(_W.time() * 1e9)
+    return _R["time.monotonic_ns"]()
+
+
+def _perf_counter():
+    if _W is not None:
+        return _W.time()
+    return _R["time.perf_counter"]()
+
+
+def _unsupported_poller(name):
+    real = _R[name]
+
+    class Poller:
+        """stands in for select.poll / select.epoll (a class, so that it can be stored as a class attribute the
+        way selectors.py does): outside a simulated run it simply is the real thing"""
+
+        def __new__(cls, *a, **kw):
+            if _K is not None:
+                # poll/epoll objects live in C; waiting on simulated descriptors with them is not modelled: say so
+                # (exit 2) instead of letting the real kernel answer EBADF inside the library
+                from .world import HarnessError
+                raise HarnessError("%s is not behind a seam (only select.select is simulated)" % name)
+            return real(*a, **kw)
+    Poller.__name__ = name.split(".")[1]
+    return Poller
+
+
 def _install_global():
     _os.read, _os.write, _os.close, _os.pipe = _os_read, _os_write, _os_close, _os_pipe
     _os.set_blocking, _os.get_blocking = _os_set_blocking, _os_get_blocking
@@ -173,6 +265,17 @@ def _install_global():
     _signal.signal, _signal.getsignal, _signal.set_wakeup_fd = _signal_signal, _signal_getsignal, _signal_set_wakeup_fd
     _time.time, _time.monotonic, _time.sleep = _time_time, _time_monotonic, _time_sleep
     _locale.getpreferredencoding = _getpreferredencoding
+    _os.isatty, _os.get_terminal_size = _os_isatty, _os_get_terminal_size
+    _fcntl.ioctl = _fcntl_ioctl
+    _termios.tcflush = _tty.tcflush = _tcflush
+    for _n in ("tcdrain", "tcflow", "tcsendbreak"):
+        setattr(_termios, _n, _tc_noop("termios." + _n))
+        setattr(_tty, _n, getattr(_termios, _n))
+    _time.perf_counter, _time.time_ns, _time.monotonic_ns = _perf_counter, _time_ns, _monotonic_ns
+    if _R["select.poll"] is not None:
+        _select.poll = _unsupported_poller("select.poll")
+    if _R["select.epoll"] is not None:
+        _select.epoll = _unsupported_poller("select.epoll")
 
 
 _install_global()
